@@ -582,16 +582,23 @@ func UpdateExpressionValue(ctx context.Context, expr *pg_query.A_Const, coder *P
 // GetWhereStatements parse all Where expressions
 func GetWhereStatements(parseResult *pg_query.ParseResult) ([]*pg_query.Node, error) {
 	var whereStatements []*pg_query.Node
-	err := pg_query.Walk(func(node *pg_query.Node) (kontinue bool, err error) {
+	var visit pg_query.Visit
+	visit = func(node *pg_query.Node) (kontinue bool, err error) {
 		if expr := node.GetAExpr(); expr != nil {
 			whereStatements = append(whereStatements, &pg_query.Node{
 				Node: &pg_query.Node_AExpr{
 					AExpr: expr,
 				},
 			})
+			// the walker visits only the operator name of an expression: its operands are walked here, they can hold
+			// expressions themselves - (a = 'x') = true, id = (SELECT id FROM t WHERE a = 'x')
+			if err := pg_query.Walk(visit, expr.GetLexpr(), expr.GetRexpr()); err != nil {
+				return false, err
+			}
 		}
 		return true, nil
-	}, parseResult.Stmts[0].Stmt)
+	}
+	err := pg_query.Walk(visit, parseResult.Stmts[0].Stmt)
 	return whereStatements, err
 }
 
